@@ -5,7 +5,6 @@ for P in "$@"; do echo $P; done | xargs -P 4 -I{} sh -c '
   P={}
   for d in /tmp/seed-$P/SEED/[0-9]*; do
     n=$(basename $d); [ -f $d/patch.diff ] || continue
-    ok=$(grep -c "^test result: ok" $d/confirm_suite.log 2>/dev/null); bad=$(grep -c "^test result: FAILED" $d/confirm_suite.log 2>/dev/null)
-    if [ "${ok:-0}" -lt 17 ] && [ "${bad:-0}" -eq 0 ]; then /verif/bin/confirm_suite.sh $P $n; fi
+    /verif/bin/suite_done.py $d/confirm_suite.log || /verif/bin/confirm_suite.sh $P $n
   done'
 echo queue-done >> /var/tmp/vt/confirm-queue.log
